@@ -17,6 +17,8 @@ Definition hgetB (h : heapF) (a : string) (idx : list Z) : bool :=
   match hget h (a, idx) with Some (VB b) => b | Some (VZ z) => negb (Z.eqb z 0) | _ => false end.
 Definition hgetV (h : heapF) (a : string) (idx : list Z) : list float :=
   match hget h (a, idx) with Some (VV v) => v | _ => nil end.
+Definition hgetZs (h : heapF) (a : string) (idx : list Z) : list Z :=
+  match hget h (a, idx) with Some (VZs v) => v | _ => nil end.
 
 Definition lk {T} (l : list T) (d : T) (i : Z) : T := if (i <? 0)%Z then d else nth (Z.to_nat i) l d.
 
@@ -28,6 +30,7 @@ Definition wval_close (tol : float) (a b : wval float) : bool :=
   | VZ x, VB y => Z.eqb x (if y then 1 else 0)
   | VB x, VZ y => Z.eqb (if x then 1 else 0) y
   | VV x, VV y => fl_close tol x y
+  | VZs x, VZs y => zl_eqb x y
   | _, _ => false
   end.
 Definition wval_finite (a : wval float) : bool :=
